@@ -127,7 +127,7 @@ func (obj *Instance) Init(scope *slip.Scope, args slip.List, depth int) {
 		}
 		i++
 		val := args[i]
-		if len(cf.initable) == 0 || cf.initable[key] {
+		if len(cf.initable) == 0 || cf.isInitable(key) {
 			vkey := key[1:]
 			if _, has := cf.defaultVars[vkey]; has {
 				obj.Let(slip.Symbol(vkey), val)
